@@ -139,6 +139,16 @@ func (sa *Safe) rankLoop(fr *frame, h *ssa.BasicBlock, latches []*ssa.BasicBlock
 			}
 		}
 	}
+	// no back edge is ever taken in the abstract semantics (a sound over-approximation): no second iteration
+	taken := false
+	for _, l := range latches {
+		if backEdge[[2]int{l.Index, h.Index}] != nil {
+			taken = true
+		}
+	}
+	if !taken {
+		return "R-none(back edge unreachable)", true, ""
+	}
 	var whyRank []string
 	// R-rank
 	for _, ins := range h.Instrs {
@@ -229,7 +239,7 @@ func (sa *Safe) rankLoop(fr *frame, h *ssa.BasicBlock, latches []*ssa.BasicBlock
 				if a == pa {
 					continue
 				}
-				if wi, ok := sa.u.atoms[a].Where.(ssa.Instruction); ok && wi != nil && wi.Block() != nil && wi.Parent() == fr.fn && body[wi.Block()] {
+				if !sa.atomInvariant(a, pa, fr.fn, body, 0) {
 					inv = false
 				}
 			}
@@ -568,4 +578,61 @@ func (sa *Safe) consumesOnSuccess(fn *ssa.Function, pi int, depth int) bool {
 		}
 	}
 	return false
+}
+
+// pureOfInvariants: the instruction computes a pure arithmetic function of values defined
+// outside the loop (so it denotes the same value in every iteration).
+func pureOfInvariants(ins ssa.Instruction, body map[*ssa.BasicBlock]bool, depth int) bool {
+	if depth > 6 {
+		return false
+	}
+	switch ins.(type) {
+	case *ssa.BinOp, *ssa.Convert, *ssa.ChangeType:
+	case *ssa.UnOp:
+		if ins.(*ssa.UnOp).Op == token.MUL {
+			return false // a load
+		}
+	default:
+		if c, ok := ins.(*ssa.Call); ok {
+			if b, ok := c.Call.Value.(*ssa.Builtin); ok && b.Name() == "len" {
+				break
+			}
+		}
+		return false
+	}
+	for _, op := range ins.Operands(nil) {
+		switch v := (*op).(type) {
+		case *ssa.Const, *ssa.Parameter, *ssa.Builtin:
+		case ssa.Instruction:
+			if v.Block() != nil && body[v.Block()] {
+				if _, isPhi := v.(*ssa.Phi); isPhi {
+					return false
+				}
+				if !pureOfInvariants(v, body, depth+1) {
+					return false
+				}
+			}
+		default:
+			return false
+		}
+	}
+	return true
+}
+
+// atomInvariant: the unknown denotes the same value in every iteration of the loop.
+func (sa *Safe) atomInvariant(a, rankAtom atomID, fn *ssa.Function, body map[*ssa.BasicBlock]bool, depth int) bool {
+	if a == rankAtom || depth > 6 {
+		return false
+	}
+	if wi, ok := sa.u.atoms[a].Where.(ssa.Instruction); ok && wi != nil && wi.Block() != nil && wi.Parent() == fn && body[wi.Block()] {
+		if !pureOfInvariants(wi, body, 0) {
+			return false
+		}
+	}
+	for _, d := range sa.u.atoms[a].Deps {
+		if !sa.atomInvariant(d, rankAtom, fn, body, depth+1) {
+			return false
+		}
+	}
+	return true
 }
